@@ -536,12 +536,18 @@ def decoy_signature(ref_id):
     return t[3][0]
 
 
+def look_alike(i, policy):
+    return {"case": i.swapcase(), "padded": " " + i + " ", "prefix": "x" + i, "suffix": i + "x"}[policy]
+
+
 def set_ids(el, policy, fresh):
     el = copy.deepcopy(el)
     if policy == "fresh":
         set_attr(el, "ID", fresh)
     elif policy == "removed":
         set_attr(el, "ID", None)
+    elif policy in ("case", "padded", "prefix", "suffix"):
+        set_attr(el, "ID", look_alike(attr(el, "ID") or fresh, policy))
     return el
 
 
@@ -588,18 +594,39 @@ def place(root, evil, orig, where):
             return False
         av[-1][3].append(orig)
         av[-1][2] = ""
+    elif where == "box":
+        evil[3].append(T("ev:Box", kids=[orig]))
+    elif where == "child":
+        evil[3].append(orig)
     else:
         raise ValueError(where)
     return True
 
 
-PLACES = ["before", "after", "extensions", "advice", "object", "scd", "attrvalue", "statusdetail"]
+def nested_first(holder, orig):
+    """move the child of `holder` that contains `orig` in front of holder's first ds:Signature child, so that the
+    nested element (and any signature it carries) precedes the holder's own signature in document order"""
+    si = [i for i, k in enumerate(holder[3]) if k[0] == DS_SIG]
+    ci = [i for i, k in enumerate(holder[3]) if any(n is orig for p, n in walk(k))]
+    if not si or not ci or ci[0] < si[0]:
+        return bool(ci and si)
+    node = holder[3].pop(ci[0])
+    holder[3].insert(si[0], node)
+    return True
+
+
+PLACES = ["before", "after", "extensions", "advice", "object", "scd", "attrvalue", "statusdetail", "box", "child"]
+INNER_PLACES = ["advice", "scd", "attrvalue", "box", "child"]
 ID_POLICIES = ["same", "fresh", "removed"]
+LOOKALIKE_IDS = ["case", "padded", "prefix", "suffix"]
 SIG_POLICIES = ["copied", "stripped", "moved", "copied+decoy", "moved+decoy", "decoy+moved"]
+# "decoy": the wrapper carries only its own self-referencing signature template, the nested genuine element keeps its signature
+ALL_SIG_POLICIES = SIG_POLICIES + ["decoy"]
 
 
-def xsw_assertion(doc, where, idp, sigp):
-    """assertion-level wrapping of the (first) signed assertion of doc"""
+def xsw_assertion(doc, where, idp, sigp, order="after"):
+    """assertion-level wrapping of the (first) signed assertion of doc; order="before": the nested genuine element
+    precedes the wrapper's own ds:Signature child(ren) in document order"""
     root = copy.deepcopy(doc)
     ai = [i for i, k in enumerate(root[3]) if k[0] == "saml:Assertion"]
     if not ai:
@@ -617,7 +644,7 @@ def xsw_assertion(doc, where, idp, sigp):
         elif sigp.startswith("moved") or sigp.endswith("moved"):
             sigs = [copy.deepcopy(s)]
             orig = without(orig, DS_SIG)
-        if sigp.endswith("+decoy"):
+        if sigp.endswith("+decoy") or sigp == "decoy":
             sigs = sigs + [decoy_signature(eid)]
         elif sigp.startswith("decoy+"):
             sigs = [decoy_signature(eid)] + sigs
@@ -628,10 +655,12 @@ def xsw_assertion(doc, where, idp, sigp):
     root[3][ai[0]] = evil
     if not place(root, evil, orig, where):
         return None
+    if order == "before" and not nested_first(evil, orig):
+        return None
     return root
 
 
-def xsw_response(doc, where, idp, sigp):
+def xsw_response(doc, where, idp, sigp, order="after"):
     """Response-level wrapping: a new outer Response carries the evil content, the genuine Response is tucked away"""
     orig = copy.deepcopy(doc)
     s = child(orig, DS_SIG)
@@ -650,7 +679,7 @@ def xsw_response(doc, where, idp, sigp):
         elif sigp.startswith("moved") or sigp.endswith("moved"):
             sigs = [copy.deepcopy(s)]
             orig = without(orig, DS_SIG)
-        if sigp.endswith("+decoy"):
+        if sigp.endswith("+decoy") or sigp == "decoy":
             sigs = sigs + [decoy_signature(rid)]
         elif sigp.startswith("decoy+"):
             sigs = [decoy_signature(rid)] + sigs
@@ -664,16 +693,16 @@ def xsw_response(doc, where, idp, sigp):
             outer[3].insert(0, orig)
         else:
             outer[3].append(orig)
-        return outer
-    if not ev and where in ("advice", "scd", "attrvalue"):
+    elif not ev and where in ("advice", "scd", "attrvalue", "box", "child"):
         return None
-    if where == "object":
+    elif where == "object":
         sg = child(outer, DS_SIG, last=True)
         if sg is None:
             return None
         sg[3].append(T("ds:Object", kids=[orig]))
-        return outer
-    if not place(outer, ev[0] if ev else None, orig, where):
+    elif not place(outer, ev[0] if ev else None, orig, where):
+        return None
+    if order == "before" and not nested_first(outer, orig):
         return None
     return outer
 
@@ -992,7 +1021,18 @@ def random_surgery(rng, doc, donor, steps, careful=False):
         holders = [(q, x) for q, x in walk(d) if id(x) not in inner and id(x) not in roots]
         if not nodes or not holders:
             break
-        op = rng.choice(["move", "copy", "delete", "reid", "wrap", "graft", "dupsig", "text", "swap", "unwrap", "attr"])
+        op = rng.choice(["move", "copy", "delete", "reid", "wrap", "graft", "dupsig", "text", "swap", "unwrap", "attr", "xsw"])
+        if op == "xsw":
+            f = rng.choice([xsw_assertion, xsw_response])
+            try:
+                w = f(d, rng.choice(PLACES), rng.choice(ID_POLICIES + LOOKALIKE_IDS), rng.choice(ALL_SIG_POLICIES),
+                      rng.choice(["after", "before"]))
+            except Exception:
+                w = None
+            if w is not None:
+                d = w
+                desc.append(op)
+            continue
         p, n = rng.choice(nodes)
         par = sub(d, p[:-1])
         whole_only = id(n) in roots
@@ -1014,7 +1054,9 @@ def random_surgery(rng, doc, donor, steps, careful=False):
                 c = [x for q, x in walk(d) if attr(x, "ID") is not None and id(x) not in inner and id(x) not in roots]
                 if c:
                     x = rng.choice(c)
-                    set_attr(x, "ID", rng.choice(["a-1", "r-1", "a-2", "evil-1", "None", "", None, attr(x, "ID") + "x"]))
+                    i0 = attr(x, "ID")
+                    set_attr(x, "ID", rng.choice(["a-1", "r-1", "a-2", "evil-1", "None", "", None, i0 + "x", "x" + i0,
+                                                  i0.swapcase(), " " + i0 + " ", "A-1", "R-1"]))
             elif op == "wrap":
                 w = rng.choice(["saml:Advice", "samlp:Extensions", "ds:Object", "samlp:StatusDetail", "ev:Box",
                                 "saml:EncryptedAssertion", "saml:Assertion", "saml:AttributeValue"])
@@ -1088,6 +1130,29 @@ def generate(ctx):
                         add("xsw-a", "%s:%s:%s:%s" % (bname, where, idp, sigp), xsw_assertion(B[bname], where, idp, sigp), pols)
                     if bname != "m1A":
                         add("xsw-r", "%s:%s:%s:%s" % (bname, where, idp, sigp), xsw_response(B[bname], where, idp, sigp), pols)
+    # 1b. look-alike IDs (case variant, whitespace-padded, prefix / suffix) and nested-genuine-FIRST placements
+    #     (the nested element precedes the wrapper's own ds:Signature child), incl. wrapper with only its own
+    #     self-referencing signature template around the still signed genuine element
+    for bname in plain_modes:
+        pols = ({"m1R": ("R", "E"), "m1A": ("A", "E"), "m1B": ("R", "A", "B")} if ctx.thorough else
+                {"m1R": ("R",), "m1A": ("A",), "m1B": ("B", "E")})[bname]
+        fs = ([("xsw-a", xsw_assertion)] if bname != "m1R" else []) + ([("xsw-r", xsw_response)] if bname != "m1A" else [])
+        for fam, f in fs:
+            places = PLACES if ctx.thorough else ["after", "extensions", "advice"]
+            sigps = ALL_SIG_POLICIES if ctx.thorough else ["copied", "moved", "moved+decoy"]
+            for idp in LOOKALIKE_IDS:
+                for where in places:
+                    for sigp in sigps:
+                        add(fam, "%s:%s:%s:%s" % (bname, where, idp, sigp), f(B[bname], where, idp, sigp), pols)
+            ids = ID_POLICIES + LOOKALIKE_IDS if ctx.thorough else ["same", "fresh", "case"]
+            places = PLACES if ctx.thorough else (INNER_PLACES + ["extensions"])
+            sigps = ALL_SIG_POLICIES if ctx.thorough else ["decoy", "copied+decoy", "moved+decoy", "decoy+moved", "stripped"]
+            for where in places:
+                for idp in ids:
+                    for sigp in sigps:
+                        add(fam, "%s:%s:%s:%s:nested-first" % (bname, where, idp, sigp), f(B[bname], where, idp, sigp, "before"), pols)
+                        if sigp == "decoy":
+                            add(fam, "%s:%s:%s:%s" % (bname, where, idp, sigp), f(B[bname], where, idp, sigp), pols)
     # 2. duplicated singleton children
     for bname in plain_modes:
         pols = {"m1R": ("R",), "m1A": ("A",), "m1B": ("B", "E")}[bname]
